@@ -307,6 +307,14 @@ func tagText(fe FrontEnd, key string, cfg int) string {
 		parts = append(parts, fmt.Sprintf(`x%s:"foreign_%s" proto%s:"other_%s" xzog:"foreignzog_%s"`, src, key, src, key, key))
 	case 6:
 		parts = append(parts, fmt.Sprintf(`zog:"z_%s,omitempty"`, key))
+	case 8:
+		// the field carries the tags of OTHER sources only (a struct shared between a JSON API, an HTML form and the
+		// environment): none of them names the field for this source
+		for _, other := range []string{"json", "form", "query", "env"} {
+			if other != src {
+				parts = append(parts, fmt.Sprintf(`%s:"%s_%s"`, other, other, key))
+			}
+		}
 	case 7:
 		// the tag renames the field to the SCHEMA KEY OF A SIBLING (a rotation of the names within each record):
 		// every document then holds, under each field's schema key, a value that belongs to another field
